@@ -120,26 +120,36 @@ def _pair_sampler(rng):
 c_mape.sampler = c_bias.sampler = _pair_sampler
 
 
+from pyvc.sumtheory import algebraic_lemma as _alg
+import z3 as _z3
+_alg("mean_of_const", 3, lambda s, n, c: _z3.Implies(_z3.And(n != 0, s == n * c), s / n == c))
+
+
 @theorem(P, "scores-perfect-and-uniform")
 def thm_uniform(n: "int", p: "real"):
     requires(n >= 1)
     y = fresh_array("y", n)
     requires(forall(0, n, lambda i: y[i] != 0))
+    pred = y * (1 + p / 100)
+    # pointwise facts first (pure arithmetic, proved before any sum machinery enters the context)
+    pointwise(n, lambda i: 100 * abs(pred[i] - y[i]) / abs(y[i]) == abs(p), id="each mape term is |p|")
+    pointwise(n, lambda i: 100 * (pred[i] - y[i]) / y[i] == p, id="each bias term is p")
     # perfect prediction
     m0 = S.mape(y, y)
     b0 = S.bias(y, y)
     use_lemma("sum_const", array_of(n, lambda i: 100 * abs(y[i] - y[i]) / abs(y[i])), 0, n)
     use_lemma("sum_const", array_of(n, lambda i: 100 * (y[i] - y[i]) / y[i]), 0, n)
+    use_lemma("mean_of_const", ssum(n, lambda i: 100 * abs(y[i] - y[i]) / abs(y[i])), n, 0)
+    use_lemma("mean_of_const", ssum(n, lambda i: 100 * (y[i] - y[i]) / y[i]), n, 0)
     ensures(m0 == 0, id="mape == 0 for perfect predictions")
     ensures(b0 == 0, id="bias == 0 for perfect predictions")
     # predictions uniformly p percent off (p > 0: too high, p < 0: too low)
-    pred = y * (1 + p / 100)
     m = S.mape(pred, y)
     b = S.bias(pred, y)
-    pointwise(n, lambda i: 100 * abs(pred[i] - y[i]) / abs(y[i]) == abs(p), id="each mape term is |p|")
-    pointwise(n, lambda i: 100 * (pred[i] - y[i]) / y[i] == p, id="each bias term is p")
     use_lemma("sum_const", array_of(n, lambda i: 100 * abs(pred[i] - y[i]) / abs(y[i])), abs(p), n)
     use_lemma("sum_const", array_of(n, lambda i: 100 * (pred[i] - y[i]) / y[i]), p, n)
+    use_lemma("mean_of_const", ssum(n, lambda i: 100 * abs(pred[i] - y[i]) / abs(y[i])), n, abs(p))
+    use_lemma("mean_of_const", ssum(n, lambda i: 100 * (pred[i] - y[i]) / y[i]), n, p)
     ensures(m == abs(p), id="mape == |p| for uniform p percent error")
     ensures(b == p, id="bias == +p / -p for predictions uniformly p percent too high / too low")
 
